@@ -1,5 +1,5 @@
 SPECIFICATION Spec
 CONSTANTS Atoms = {"a", "b", "c"}
- N = 8
+ N = 7
 INVARIANTS NodeCount EveryLeafBound ProofsVerify AlteredFails RootBindsList
 CHECK_DEADLOCK FALSE
